@@ -11,6 +11,10 @@ verus! {
 pub assume_specification<T, F: FnOnce() -> Option<T>> [Option::<T>::or_else] (o: Option<T>, f: F) -> (r: Option<T>)
     requires o is None ==> call_requires(f, ()),
     ensures o is Some ==> r == o, o is None ==> call_ensures(f, (), r);
+// std: Option::is_some_and (false for None; otherwise whatever the closure answers for the content)
+pub assume_specification<T, F: FnOnce(T) -> bool> [Option::<T>::is_some_and] (o: Option<T>, f: F) -> (r: bool)
+    requires o is Some ==> call_requires(f, (o->Some_0,)),
+    ensures o is None ==> !r, o is Some ==> call_ensures(f, (o->Some_0,), r);
 // std: Arc<str> keys hash and compare by content, the default hasher is a valid hasher (vstd's key model)
 #[verifier::external_body]
 pub broadcast proof fn axiom_arc_str_obeys_key_model()
